@@ -712,6 +712,7 @@ func main() {
 	out := flag.String("out", "", "output .v file")
 	report := flag.String("report", "", "output report (json)")
 	acc := flag.String("acc", "", "output .v file of the accessor copy/alias table (GenAcc.v)")
+	loops := flag.String("loops", "", "output .v file of the traversal table of the cell-by-cell methods (GenLoop.v)")
 	flag.Parse()
 	plain := []string{"float64", "float32", "int", "int8", "int16", "int32", "int64"}
 	real := []string{"real64", "real32"}
@@ -780,6 +781,20 @@ func main() {
 		old, _ := os.ReadFile(*acc)
 		if string(old) != at {
 			if err := os.WriteFile(*acc, []byte(at), 0644); err != nil {
+				fmt.Fprintln(os.Stderr, err)
+				os.Exit(2)
+			}
+		}
+	}
+	if *loops != "" {
+		lt, lrep, lok := loopText(*repo, plain, real)
+		rep["loops"] = lrep
+		if !lok {
+			okAll = false
+		}
+		old, _ := os.ReadFile(*loops)
+		if string(old) != lt {
+			if err := os.WriteFile(*loops, []byte(lt), 0644); err != nil {
 				fmt.Fprintln(os.Stderr, err)
 				os.Exit(2)
 			}
